@@ -132,7 +132,7 @@ def list_harness(op, n, m, mutual, alias, side, mask=None, dynamic=False):
                 lst.sort(reverse=True)
             else:
                 c05.apply(op, lst, key, new, k, False)
-        except (IndexError, ValueError, TypeError) as e:
+        except (IndexError, ValueError, TypeError, OverflowError) as e:
             exc = type(e).__name__
         after_src, after_dst = list(getattr(src, sname)), list(getattr(dst, dname))
         propagates = mutual or side == "a"
